@@ -51,17 +51,23 @@ let cdef_ s : M.cdef =
   | _ -> failwith "cdef expected"
 
 let () =
-  (* (mapping tstruct opt with-enum with-unit chan-tstruct (field-key param-key channel-key second-enum-literal) (plain ziface zvisit zfield zparam) plain-module zod-module)
+  (* (mapping tstruct opt with-enum with-unit chan-tstruct (field-key param-key channel-key second-enum-literal) ((TName ((key opt tstruct) ..)) ..) (plain ziface zvisit zfield zparam) plain-module zod-module)
      -> (in-domain model-strings string-oracle project-result allowed-tags) *)
   Registry.register "tcase" (fun s ->
     match list s with
-    | [m; t; o; we; wu; ct; keys; strs; pm; zm] ->
+    | [m; t; o; we; wu; ct; keys; extra; strs; pm; zm] ->
         let m = mapping_ m in
         let t = ts_ t in
         let o = bool_ o in
         let (fk, pk, ck, lit) = match List.map str_ (list keys) with
           | [a; b; c; d] -> (a, b, c, d) | _ -> failwith "c10-tcase: four key strings expected" in
-        let p = M.c10_tcase m t o (bool_ we) (bool_ wu) (ts_ ct) fk pk ck lit in
+        let tsmember s = match list s with
+          | [k; o; t] -> { M.m_key = str_ k; M.m_opt = bool_ o; M.m_ty = ts_ t }
+          | _ -> failwith "member expected" in
+        let extra = list_ (fun c -> match list c with
+          | [n; ps] -> { M.c_tname = str_ n; M.c_params = list_ tsmember ps; M.c_chans = [] }
+          | _ -> failwith "extra command expected") extra in
+        let p = M.c10_tcase m t o (bool_ we) (bool_ wu) (ts_ ct) fk pk ck lit extra in
         (match List.map str_ (list strs) with
          | [a; b; _; d; e] ->
              List [of_bool (M.c10_in_dom m t); of_sx (M.c10_strings m t); of_sx (M.c10_string_oracle a b d e);
